@@ -234,6 +234,22 @@ fn main() {
                 "ky": key(rv), "kstd": key(st), "sy": sc(rv), "sstd": sc(st), "sx": sc(base), "panic": p})).unwrap();
         }
     }
+    // ---- powers at the corners of the domain: x^0 = 1 (also 0^0), 1^y = 1, 0^y = 0 for y >= 1
+    #[cfg(any(feature = "libm", feature = "mm", feature = "std"))]
+    {
+        let mut pairs: Vec<(f32, f32)> = vec![(0.0, 0.0), (0.0, 1.0), (0.0, 2.0), (0.0, 3.5), (1.0, 0.0), (1.0, 1.0), (1.0, -2.5), (1.0, 30.0)];
+        for x in [1.0e-30f32, 1.0e-6, 0.001, 0.5, 0.75, 2.0, 10.0, 12345.0, 1.0e20] {
+            pairs.push((x, 0.0));
+            pairs.push((x, 1.0));
+        }
+        for (base, ex) in pairs {
+            let r = guard(|| ff::powf(base, ex));
+            let (p, rv) = match r { Some(v) => (0, v), None => (1, 0.0) };
+            let st = base.powf(ex);
+            writeln!(out, "{}", json!({"op": "f1", "be": be, "which": "sel", "fn": "powf", "x": rec(base), "y": rec(rv), "ystd": rec(st),
+                "ky": key(rv), "kstd": key(st), "sy": sc(rv), "sstd": sc(st), "sx": sc(base), "panic": p})).unwrap();
+        }
+    }
     // ---- square roots over the WHOLE positive range, and the exponential (libm / std have one)
     #[cfg(any(feature = "libm", feature = "mm", feature = "std"))]
     {
